@@ -1,4 +1,4 @@
-"""Gen.Stages: the decode stages of src/munged/dec.c that drive the primitives - `dec_decrypt`, `dec_validate_mac` - translated by
+"""Gen.Stages: the stages of src/munged/dec.c / enc.c that drive the primitives - `dec_decrypt`, `dec_validate_mac`, `enc_compress` - translated by
 the K translator (+ out-parameters): every primitive call is an event carrying the lengths it is given; its result, and what it
 stores through `&n`, are inputs.  What these kernels fix: over which byte ranges the MAC is computed and compared, which buffer sizes
 the cipher is handed, that a padding failure is deferred behind the MAC, and what every failure path returns."""
@@ -18,7 +18,7 @@ def specs():
              inputs=[M("mac"), M("error_num"), ("c.outer_len", "outer_len"), ("c.inner_len", "inner_len"), ("c.mac_len", "mac_len"),
                      ("conf.mac_key_len", "mac_key_len"), ("c.outer", "outer_ptr"), ("c.inner", "inner_ptr"), ("conf.mac_key", "mac_key_ptr"),
                      ("c.mac", "mac_ptr")],
-             calls={"m_msg_set_err": seterr, "strdup": ("ignore", 1),
+             calls={"m_msg_set_err": seterr, "strdup": ("ignore", 1), "log_msg": ("ignore", 0),
                     "mac_init": ("outinput", "r_mac_init", I32, {}, [1, 3]),
                     "mac_update": ("outinput", "r_mac_update", I32, {}, [1, 2]),
                     "mac_final": ("outinput", "r_mac_final", I32, {2: ("n_final", I32)}, []),
@@ -27,7 +27,7 @@ def specs():
         dict(name="dec_decrypt",
              inputs=[M("cipher"), M("mac"), ("c.inner_len", "inner_len"), ("c.mac_len", "mac_len"), ("conf.dek_key_len", "dek_key_len"),
                      ("conf.dek_key", "dek_key_ptr"), ("c.inner", "inner_ptr"), ("malloc_ret", "malloc_ret")],
-             calls={"m_msg_set_err": seterr, "strdup": ("ignore", 1), "strdupf": ("ignore", 1), "free": ("event", 0, []),
+             calls={"m_msg_set_err": seterr, "strdup": ("ignore", 1), "strdupf": ("ignore", 1), "free": ("event", 0, []), "log_msg": ("ignore", 0),
                     "mac_size": ("oracle", [0]), "cipher_block_size": ("oracle", [0]),
                     "mac_block": ("outinput", "r_mac_block", I32, {4: ("n_dek", I32)}, [2, 6]),
                     "cipher_init": ("outinput", "r_cipher_init", I32, {}, [1, 4]),
@@ -38,10 +38,24 @@ def specs():
     ]
 
 
+def enc_specs():
+    M = lambda f: ("c.msg." + f, f)
+    return [
+        dict(name="enc_compress", cursors={"c.outer_zip_ref": "zipref"}, named_free=True,
+             inputs=[M("zip"), ("c.inner_len", "inner_len"), ("c.inner_mem_len", "inner_mem_len"), ("c.inner", "inner_ptr"),
+                     ("c.inner_mem", "inner_mem_ptr"), ("malloc_ret", "malloc_ret")],
+             calls={"m_msg_set_err": ("event", -1, [1]), "strdup": ("ignore", 1), "log_msg": ("ignore", 0),
+                    "zip_compress_length": ("outinput", "r_zip_length", I32, {}, [0, 2]),
+                    "zip_compress_block": ("outinput", "r_zip_block", I32, {2: ("n_zip", I32)}, [0, 4])}),
+    ]
+
+
 def generate(ctx):
     d = translate_kernels(ctx, "src/munged/dec.c", specs(), cls=CursorTranslator)
-    if d is None:
+    e = translate_kernels(ctx, "src/munged/enc.c", enc_specs(), cls=CursorTranslator)
+    if d is None or e is None:
         return False
+    d = d + "\n" + e
     body = "/- GENERATED from <repo>/src/munged/dec.c by tools/gen/g_stages.py (K translator with out-parameters) -- do not edit -/\n"
     body += "import Munge.C.Kernel\nimport Munge.C.Cursor\nset_option linter.unusedVariables false\nnamespace Munge.Gen.Stages\nopen Munge.C\n\n"
     body += d + "\nend Munge.Gen.Stages\n"
